@@ -46,12 +46,13 @@ class ModuleList(Module):
 
     def _register_child(self, key: str, module: Module) -> None:
         """Register a child module under the given string key."""
-        if module._name is None:  # pylint: disable=protected-access
-            # Qualify with parent name if already set (e.g. after append)
-            if self._name is not None:
-                module._set_name(f"{self._name}.{key}")  # pylint: disable=protected-access
-            else:
-                object.__setattr__(module, "_name", key)
+        # A child of a container is always addressed by its index (as _set_name does when
+        # the container is attached), also when it carries a name of its own.
+        # Qualify with parent name if already set (e.g. after append)
+        if self._name is not None:
+            module._set_name(f"{self._name}.{key}")  # pylint: disable=protected-access
+        elif module._name is None:  # pylint: disable=protected-access
+            object.__setattr__(module, "_name", key)
         self._modules[key] = module
         object.__setattr__(self, key, module)
 
